@@ -28,6 +28,13 @@ func mapC14() map[string]interface{} {
 func H_C14_quantifier() {
 	m := mapC14()
 	d := map[string]interface{}{"m": m}
+	if len(m) == 2 && vBool() { // the same entries under an interface key type (YAML-style data)
+		im := map[interface{}]interface{}{}
+		for k, v := range m {
+			im[k] = v
+		}
+		d = map[string]interface{}{"m": im}
+	}
 	var expr string
 	switch vChoose(9) {
 	case 6: // key-only bindings: one key decisive, the others reach an erroring clause
